@@ -169,4 +169,103 @@ theorem writeCode_code_length (is : List Insn) (res : Result) (h : writeCode is 
   simp only [Array.length_toList]
   omega
 
+/-- where the next instruction starts: right behind the final bytes of this one (or the code ends there) -/
+theorem layout_next {lp pos : Nat → Option Nat} {k p : Nat} {is : List Insn} {fins : List Bytes}
+    (hl : Layout lp pos k p is fins) :
+    ∀ (j : Nat) (i : Insn), is[j]? = some i → ∃ p' fin, pos (k + j) = some p' ∧
+      (∀ X : Bytes, X.length = p → ∃ rest, (X ++ fins.flatten).drop p' = fin ++ rest) ∧ 1 ≤ fin.length ∧
+      (if j + 1 < is.length then pos (k + j + 1) = some (p' + fin.length)
+       else ∀ X : Bytes, X.length = p → (X ++ fins.flatten).length = p' + fin.length) := by
+  induction hl with
+  | nil k p => intro j i h; simp at h
+  | @cons k p i0 is fin fins hk hd hrest ih =>
+    intro j i h
+    cases j with
+    | zero =>
+      have hlen : 1 ≤ fin.length := by
+        cases hd with
+        | single d hl _ _ => exact hl
+        | tramp c t g _ hl _ _ _ => omega
+      refine ⟨p, fin, by simpa using hk, fun X hx => ⟨fins.flatten, by rw [← hx, List.flatten_cons, List.drop_left]⟩,
+        hlen, ?_⟩
+      cases hrest with
+      | nil k' p' => simp only [List.length_cons, List.length_nil]; intro X hx; simp [hx]
+      | @cons _ _ i1 is' fin' fins' hk' _ _ =>
+        have : 0 + 1 < (i0 :: i1 :: is').length := by simp
+        simp only [this, if_true]
+        simpa using hk'
+    | succ j =>
+      simp only [List.getElem?_cons_succ] at h
+      obtain ⟨p', fin', h1, h2, h3, h4⟩ := ih j i h
+      have e1 : k + (j + 1) = k + 1 + j := by omega
+      refine ⟨p', fin', by rw [e1]; exact h1, fun X hx => ?_, h3, ?_⟩
+      · obtain ⟨rest, hr⟩ := h2 (X ++ fin) (by simp [hx])
+        exact ⟨rest, by rw [List.flatten_cons, ← List.append_assoc]; exact hr⟩
+      · by_cases hlt : j + 1 < is.length
+        · have hlt' : j + 1 + 1 < (i0 :: is).length := by simp; omega
+          simp only [hlt, if_true] at h4
+          simp only [hlt', if_true]
+          have e3 : k + (j + 1) + 1 = k + 1 + j + 1 := by omega
+          rw [e3]; exact h4
+        · have hlt' : ¬ j + 1 + 1 < (i0 :: is).length := by simp; omega
+          simp only [hlt, if_false] at h4
+          simp only [hlt', if_false]
+          intro X hx
+          have := h4 (X ++ fin) (by simp [hx])
+          rw [List.flatten_cons, ← List.append_assoc]
+          exact this
+
+/-- **positions**: the label after instruction `k` (the next instruction, or the end of the code) is the position
+of `k` plus the number of bytes written for `k` -/
+theorem writeCode_positions (is : List Insn) (hwt : ∀ i ∈ is, wt i = true) (res : Result)
+    (h : writeCode is = .ok res) (k : Nat) (i : Insn) (hk : is[k]? = some i) :
+    ∃ pc fin rest, res.pos[k]? = some pc ∧ res.code.drop pc = fin ++ rest ∧ 1 ≤ fin.length ∧
+      res.label (k + 1) = some (pc + fin.length) := by
+  have hposz := writeCode_pos_size is res h
+  have hcl := writeCode_code_length is res h
+  obtain ⟨wide', s, w', hs, hres, _, hle, rfl⟩ := write_ok_attempt is _ _ res h
+  obtain ⟨cs, hc, hw, hu, hsz, _⟩ := pass_chunks wide' is St.init s hs
+  simp only [St.init, List.size_toArray, List.length_nil, Nat.zero_add, List.nil_append,
+    List.toList_toArray] at hc hw hu hsz
+  have hd := resolve_done _ _ _ _ hres
+  rw [hu, hw] at hd
+  have hlen : w'.toList.length = s.w.toList.length := by
+    rw [hw]; exact resolveAt_length _ _ _ _ _ hd
+  have hsub : ∀ t x, s.pos[t]? = some x → labelPos s.pos s.w.size t = some x := fun t x => labelPos_sub _ _ _ _
+  have hbound : ∀ t x, labelPos s.pos s.w.size t = some x → x ≤ 65535 := by
+    intro t x ht
+    unfold labelPos at ht
+    split at ht
+    · rename_i p hp
+      cases ht
+      have hlt : t < s.pos.size := (Array.getElem?_eq_some_iff.mp hp).1
+      exact chunks_pos_le hc t _ (Nat.zero_le _) (by omega) hp
+    · split at ht
+      · cases ht; omega
+      · cases ht
+  obtain ⟨fins, hcf, hl⟩ := chunks_layout hsub hbound hc hwt [] w'.toList rfl (by simpa using hle)
+    (by simpa using hd)
+  obtain ⟨p', fin, h1, h2, h3, h4⟩ := layout_next hl k i hk
+  obtain ⟨rest, hr⟩ := h2 [] rfl
+  rw [← hcf] at hr
+  refine ⟨p', fin, rest, by simpa using h1, hr, h3, ?_⟩
+  simp only [Result.label, labelPos]
+  simp only at hposz
+  split at h4
+  · rename_i hlt
+    simp only [Nat.zero_add] at h4
+    simp [h4]
+  · rename_i hlt
+    have hk' : k < is.length := by
+      have := List.getElem?_eq_some_iff.mp hk
+      exact this.1
+    have hkk : k + 1 = is.length := by omega
+    have hnone : s.pos[is.length]? = none := by apply Array.getElem?_eq_none; omega
+    have := h4 [] rfl
+    rw [← hcf] at this
+    simp only [hkk, hnone, hposz, if_true]
+    simp only [Array.length_toList] at this hcl ⊢
+    congr 1
+    omega
+
 end CodeWrite
